@@ -69,8 +69,14 @@ inline std::vector<ApiGroup> api_groups(const BoxOpts& o) {
   return g;
 }
 
-inline void run_group(const ApiGroup& G, const BoxOpts& o, const std::function<void(ApiCase&)>& fn) {
+inline void run_group(const ApiGroup& G, const BoxOpts& o, const std::function<void(ApiCase&)>& fn0) {
   const uint64_t N = G.N;
+  // everything outside fn0 is case generation (it calls the library): a crash there is attributed to the group
+  const std::string gdesc = sfmt("entry-point group family=%d sub=%d N=%llu module=%s cfg=%s", (int)G.fam, G.sub, (unsigned long long)G.N, G.mtype ? "ntt120" : "fft64", G.cfg.name);
+  auto arm = [&]() { if (g_ctx()) g_ctx()->generating(gdesc); };
+  auto fn = [&](ApiCase& c) { fn0(c); arm(); };
+  arm();
+  struct Disarm { ~Disarm() { if (g_ctx()) g_ctx()->generating_done(); } } disarm_at_exit;
   MODULE_TYPE t = G.mtype == 0 ? FFT64 : NTT120;
   MODULE* mod = get_module(N, t, G.cfg);
   const char* cfg = G.cfg.name;
